@@ -205,6 +205,11 @@ impl Report {
         cov.insert("violation_list".into(), Value::Array(viol_json));
         cov.insert("known_findings_matched".into(), json!(known_hit));
         cov.insert("machinery_errors".into(), json!(self.machinery_errors));
+        if let Ok(s) = std::env::var("VERIF_SSO_SUMMARY") {
+            if !s.trim().is_empty() {
+                cov.insert("sso_feature_builds".into(), json!(s.trim()));
+            }
+        }
         let ev = json!({
             "property_id": self.prop,
             "tier": self.tier,
